@@ -1051,6 +1051,27 @@ where
                 if o.get().get() != v || o.key().gen() != want_gen {
                     bad!(p, "entry-insert", "Entry::insert({k}): ({}, gen {}) want ({v}, gen {want_gen})", o.get().get(), o.key().gen());
                 }
+
+                if v % 3 == 0 {
+                    // the entry just returned, emptied through replace_entry_with(None) and re-filled through
+                    // the Vacant entry that hands back: same key object, new value
+                    match o.replace_entry_with(|_, _| {
+                        world::callback(Class::Closure);
+                        None
+                    }) {
+                        hb::hash_map::Entry::Vacant(vac) => {
+                            if vac.key().gen() != want_gen {
+                                bad!(p, "entry-replace_entry_with-key", "vacant key gen {} want stored gen {want_gen}", vac.key().gen());
+                            }
+                            let r = vac.insert(V::new(v ^ 1));
+                            r.check("insert through the Vacant entry returned by replace_entry_with");
+                        }
+                        hb::hash_map::Entry::Occupied(_) => bad!(p, "entry-replace_entry_with", "replace_entry_with(None) returned Occupied"),
+                    }
+                    if let Some(i) = model.iter().position(|e| e.id == k) {
+                        model[i].val = v ^ 1;
+                    }
+                }
             }
             6 | 7 => {
                 let some = act == 6;
@@ -1293,6 +1314,27 @@ where
                 };
                 if o.get().get() != v || o.key().gen() != want_gen {
                     bad!(p, "entry_ref-insert", "EntryRef::insert({k}): ({}, gen {}) want ({v}, gen {want_gen})", o.get().get(), o.key().gen());
+                }
+
+                if v % 3 == 0 {
+                    // the entry just returned, emptied through replace_entry_with(None) and re-filled through
+                    // the Vacant entry that hands back: same key object, new value
+                    match o.replace_entry_with(|_, _| {
+                        world::callback(Class::Closure);
+                        None
+                    }) {
+                        hb::hash_map::Entry::Vacant(vac) => {
+                            if vac.key().gen() != want_gen {
+                                bad!(p, "entry-replace_entry_with-key", "vacant key gen {} want stored gen {want_gen}", vac.key().gen());
+                            }
+                            let r = vac.insert(V::new(v ^ 1));
+                            r.check("insert through the Vacant entry returned by replace_entry_with");
+                        }
+                        hb::hash_map::Entry::Occupied(_) => bad!(p, "entry-replace_entry_with", "replace_entry_with(None) returned Occupied"),
+                    }
+                    if let Some(i) = model.iter().position(|e| e.id == k) {
+                        model[i].val = v ^ 1;
+                    }
                 }
             }
             _ => match e {
